@@ -15,6 +15,20 @@ for tc in ET.parse(xml).getroot().iter("testcase"):
         passed.add(f"{tc.get('classname')}::{tc.get('name')}")
 os.unlink(xml)
 missing = [t for t in base["stable_pass"] if t not in passed]
+# a test that uses unseeded randomness can fail once in a while: re-run the missing ones alone (twice at most) before judging
+for attempt in range(2):
+    if not missing or len(missing) > 5:
+        break
+    still = []
+    for t in missing:
+        mod, name = t.split("::", 1)
+        node = mod.replace(".", "/") + ".py::" + name
+        r = subprocess.run(["/venv/bin/python", "-m", "pytest", "-q", "-p", "no:cacheprovider", "-p", "no:randomly", node], cwd=repo, env=env, capture_output=True, text=True)
+        if r.returncode != 0:
+            still.append(t)
+        else:
+            print(f"  (re-run alone, passed: {t})")
+    missing = still
 print(p.stdout.strip().splitlines()[-1] if p.stdout.strip() else p.stderr[-500:])
 print(f"stable baseline: {len(base['stable_pass']) - len(missing)}/{len(base['stable_pass'])} passed")
 for t in missing[:30]:
